@@ -663,6 +663,11 @@ def run_column(C, hist):
 
 
 def _same_out(want, got):
+    if want["oc"] == "values":
+        # compress(): the rows and the mask; integer data in whichever integer type compress() chose
+        w, g = want["c"], got["c"]
+        return got["oc"] == "ok" and w["m"] == g["m"] and w["d"]["v"] == g["d"]["v"] and (
+            w["d"]["t"] == g["d"]["t"] or (w["d"]["t"] in range(1, 7) and g["d"]["t"] in range(1, 7)))
     return want["oc"] == got["oc"] and (want["oc"] != "ok" or want["c"] == got["c"])
 
 
